@@ -291,7 +291,7 @@ func Run(main func(), prefix []int, horizon int, envSince bool, observer func(st
 		if t.op.nalt != nil {
 			if n := t.op.nalt(); n > 1 {
 				kind := byte('a')
-				if t.op.kind == "since" {
+				if t.op.kind == "since" || t.op.kind == "maporder" {
 					kind = 'e'
 				}
 				t.op.alt = s.next(n, kind)
